@@ -144,10 +144,20 @@ func c18InstanceName(s string) digest.InstanceName {
 // c18NewEnv wires the system: to be called inside the simulation.
 func c18NewEnv(c *sim.RunCtx, trees [3]*c18Node, prestored []c18Ref, quiet bool) *c18Env {
 	rec := &c18Rec{c: c, quiet: quiet}
-	e := &c18Env{c: c, rec: rec, trees: trees, stored: map[string]bool{}, digests: map[c18Ref]digest.Digest{}, quiet: quiet, ctx: context.Background()}
+	e := &c18Env{c: c, rec: rec, trees: trees, stored: map[string]bool{}, digests: map[c18Ref]digest.Digest{}, quiet: quiet, ctx: auth.NewContextWithAuthenticationMetadata(context.Background(), c18Metadata(trees))}
 	for i, t := range trees {
 		if t != nil {
 			e.authz[i] = t.build(rec)
+			for _, l := range t.leaves(nil) {
+				if l.Kind == c18KCfgJMES && !quiet {
+					c.Count("probe_jmespath_leaf", 1)
+					for _, v := range l.Vals {
+						if v >= 2 {
+							c.Count("probe_jmespath_non_boolean_result", 1)
+						}
+					}
+				}
+			}
 		}
 	}
 	e.backend = &c18Backend{rec: rec, store: map[string][]byte{}}
@@ -289,9 +299,9 @@ func c18Calls(calls []c18BackendCall) string {
 }
 
 // checkAuthorize evaluates an authorizer called directly with a batch.
-func c18CheckAuthorize(c *sim.RunCtx, rec *c18Rec, tree *c18Node, a auth.Authorizer, names []string, in []digest.InstanceName, desc func() string) (nontrivial bool) {
+func c18CheckAuthorize(ctx context.Context, c *sim.RunCtx, rec *c18Rec, tree *c18Node, a auth.Authorizer, names []string, in []digest.InstanceName, desc func() string) (nontrivial bool) {
 	rec.reset()
-	errs := a.Authorize(context.Background(), in)
+	errs := a.Authorize(ctx, in)
 	if len(errs) != len(names) {
 		c.Fail("authorize-result-length", "%s: %d results for %d instance names", desc(), len(errs), len(names))
 		return
@@ -488,7 +498,7 @@ func (e *c18Env) doOp(op *c18Op) {
 			in = append(in, c18InstanceName(n))
 		}
 		tree := e.trees[op.Tree]
-		if c18CheckAuthorize(c, rec, tree, e.authz[op.Tree], op.Names, in, func() string { return desc + " on " + tree.String() }) {
+		if c18CheckAuthorize(e.ctx, c, rec, tree, e.authz[op.Tree], op.Names, in, func() string { return desc + " on " + tree.String() }) {
 			e.evaluated++
 		}
 		if len(rec.backend) != nb {
@@ -588,7 +598,7 @@ type c18Gen struct {
 func (g *c18Gen) leaf() *c18Node {
 	g.leaves++
 	n := &c18Node{Leaf: true, ID: fmt.Sprintf("%s%d", g.prefix, g.leaves)}
-	switch g.t.Pick(6, 2, 1, 1) {
+	switch g.t.Pick(6, 2, 1, 1, 2) {
 	case 0:
 		n.Kind = c18KStub
 	case 1:
@@ -596,6 +606,16 @@ func (g *c18Gen) leaf() *c18Node {
 	case 2:
 		n.Kind = c18KCfgPrefix
 		n.Prefixes = c18DrawPrefixes(g.t)
+		return n
+	case 4:
+		n.Kind = c18KCfgJMES
+		n.Vals = map[string]int{}
+		for _, name := range g.names {
+			if g.t.Chance(1, 6) {
+				continue // the field is absent from the metadata
+			}
+			n.Vals[name] = g.t.Pick(4, 2, 1, 1, 1, 1, 1)
+		}
 		return n
 	default:
 		n.Kind = c18KCfgDeny
@@ -883,7 +903,7 @@ func c18Exhaustive(c *sim.RunCtx) {
 				total := c18Pow(c18NOutcomes, sh.leaves*n)
 				for code := 0; code < total; code++ {
 					c18Assign(leaves, names, code, c18NOutcomes)
-					c18CheckAuthorize(c, rec, tree, a, names, in, func() string {
+					c18CheckAuthorize(context.Background(), c, rec, tree, a, names, in, func() string {
 						return fmt.Sprintf("exhaustive %s Authorize(%q) on %s", sh.name, names, tree)
 					})
 					cases++
